@@ -95,13 +95,15 @@ class Bytes(Decl):
     def make(self, name):
         import z3
 
-        return SBytes([SInt(z3.ZeroExt(V.W - 8, z3.BitVec("%s[%d]" % (name, i), 8)), 0, 255) for i in range(self.n)], self.mutable)
+        sb = SBytes([SInt(z3.ZeroExt(V.W - 8, z3.BitVec("%s[%d]" % (name, i), 8)), 0, 255) for i in range(self.n)], self.mutable)
+        sb._initial_cells = tuple(sb.cells)  # the real code may mutate (even resize) the buffer; inputs are the initial cells
+        return sb
 
     def constraints(self, v):
         return []
 
     def from_model(self, model, v):
-        return [model.eval(c.e, model_completion=True).as_long() & 0xFF for c in v.cells]
+        return [model.eval(c.e, model_completion=True).as_long() & 0xFF for c in getattr(v, "_initial_cells", v.cells)]
 
     def decode(self, j):
         return bytearray(j) if self.mutable else bytes(j)
